@@ -53,7 +53,8 @@ ASSUME PrintT("@@UNI " \o ToJson(
     exec |-> UExec ]))
 
 \* ---------------------------------------------------------------- family vars
-VarTypes == { <<"String">>, <<"Int">>, <<"Boolean">>, <<"[", "String", "]">>, <<"In">>, <<"String", "!">>, <<"[", "In", "!", "]", "!">>, <<"Float">>, <<"Nope">> }
+VarTypes == { <<"String">>, <<"Int">>, <<"Boolean">>, <<"[", "String", "]">>, <<"In">>, <<"String", "!">>, <<"[", "In", "!", "]", "!">>, <<"Float">>, <<"Nope">>,
+              <<"[", "]">>, <<"[", "[", "]", "]">>, <<"!">>, <<"[", "!", "]">>, <<"[", "String">> }
 VarDefaults == { <<>>, <<"=", "STR">>, <<"=", "1">>, <<"=", "null">>, <<"=", "[", "1", "]">>, <<"=", "{", "a", ":", "1", "}">>, <<"=", "$", "v">> }
 VarSites ==
   { <<"echo", "(", "s", ":", "$", "v", ")">>, <<"echo", "(", "i", ":", "$", "v", ")">>, <<"echo", "(", "b", ":", "$", "v", ")">>,
@@ -110,6 +111,14 @@ InDefCases ==
     form |-> <<"input", "In", "{", "a", ":">> \o ty \o <<"=">> \o dv \o <<"n", ":", "Int", "}">> \o tail] :
       ty \in InDefTypes, dv \in InDefVals,
       tail \in { <<>>, <<"input", "T", "{", "b", ":", "In", "=", "{", "}", "}">>, <<"type", "Query", "{", "a", "(", "x", ":", "In", ")", ":", "Int", "}">> }}
+  \* the same through a directive argument default / a directive use, with two inputs whose defaults include each other
+  \cup {[fam |-> "indef", ph |-> "case", lang |-> "sdl", sep |-> "sp", nm |-> 0,
+          form |-> hd \o <<"input", "In", "{", "a", ":", "T", "=">> \o dv \o <<"}", "input", "T", "{", "b", ":", "In", "=", "{", "}", "}">>] :
+        dv \in {<<"{", "}">>, <<"{", "b", ":", "{", "}", "}">>, <<"null">>},
+        hd \in { <<"directive", "@", "d", "(", "x", ":", "In", "=", "{", "}", ")", "on", "OBJECT">>,
+                 <<"directive", "@", "d", "(", "x", ":", "[", "In", "]", "=", "[", "{", "}", "]", ")", "on", "OBJECT">>,
+                 <<"directive", "@", "d", "(", "x", ":", "In", ")", "on", "OBJECT", "type", "Query", "@", "d", "(", "x", ":", "{", "}", ")", "{", "a", ":", "Int", "}">>,
+                 <<"type", "Query", "{", "a", "(", "x", ":", "In", "=", "{", "}", ")", ":", "Int", "}">> }}
 
 \* ---------------------------------------------------------------- family dupkey
 QFields == { <<"title">>, <<"bad">>, <<"grid">>, <<"a", "{", "n", "}">>, <<"nul", "{", "n", "}">>, <<"items", "{", "n", "}">>,
